@@ -86,6 +86,7 @@ type Style struct {
 	Indent    int  `json:"indent,omitempty"` // spaces
 	BlankLine bool `json:"blank,omitempty"`
 	RouteKw   bool `json:"route_kw,omitempty"` // `@ route /p [GET]` form
+	MultiLine bool `json:"multi_line,omitempty"` // array / object literals one element per line
 	Semis     bool `json:"-"`
 }
 
